@@ -3,7 +3,7 @@ from the rng passed in (one PRNG per check, seeded from VERIF_SEED)."""
 import itertools
 
 WORDS = ['a', 'foo', 'bar.', 'GPL-2+', 'x:y', '(c)', '2019', 'é', '漢字', '-', '--', '.', '..', '.x',
-         '*', 'b/c', 'A', 'zz', '1', '~', '+', 'Ünï', '"q"', '#', '{}', '{0}', '%s', '\\n', '[a]', '<b>', 'a=b', 'e\u0301', 'K', '\u2126']
+         '*', 'b/c', 'A', 'zz', '1', '~', '+', 'Ünï', '"q"', '#', '{}', '{0}', '%s', '\\n', '[a]', '<b>', 'a=b', 'e\u0301', 'K', '\u2126', '=?utf-9?q?x?=', '=?utf-8?b?a?=', '=?ascii?q?=FF?=', '#x', '#']
 TERMS = ['\n'] * 12 + ['\r\n', '\r', '\n', '\n']
 ODD_BREAKS = ['\x0b', '\x0c', '\x1c', '\x1d', '\x1e', '\x85', '\u2028', '\u2029']
 ODD_SPACES = ['\x1f', '\xa0', '\u1680', '\u2000', '\u2009', '\u202f', '\u205f', '\u3000']
@@ -80,7 +80,8 @@ def unicode_text(rng, maxlen=30):
 FIELD_NAMES = ['Format', 'Files', 'Copyright', 'License', 'Licence', 'Comment', 'Source', 'Upstream-Name',
                'Upstream-Contact', 'Disclaimer', 'Files-Excluded', 'Package', 'Version', 'Depends', 'Description',
                'X-Foo', 'Foo', 'foo-1', 'License-1', 'Files-2', 'Unknown', 'Unknown-1', 'Extra-Data',
-               'Line-Numbers-By-Field', 'Format-Specification', 'Content-Type', 'A0-', 'LICENSE', 'files', 'İx', 'Kelvin']
+               'Line-Numbers-By-Field', 'Format-Specification', 'Content-Type', 'A0-', 'LICENSE', 'files', 'İx', 'Kelvin',
+               'Licence-Text', 'X-Licence', 'Licences', 'SubLicence', 'Note-', 'X--Comment']
 NEAR_DECL = ['1abc: x', 'X_Foo: y', ' Some: bar', 'foo bar: baz', ':x', 'é: 1', 'a b', 'From foo', '-a: 1', 'a.b: c']
 
 
